@@ -1,7 +1,8 @@
 (* Correspondence checker for C08: runs the validity model on a recorded input and compares it
    with what the implementation returned (mask values, shape, np.shares_memory and the
    "invert the result's mask, re-read the operand's" probe). *)
-From DF Require Import Prelude NDArray Valid.
+From DF Require Export Prelude Valid.
+From DF Require Import NDArray.
 Open Scope nat_scope.
 
 (* binary64 value of the literal 1e-8 used by np.isclose (exact-regime threshold cases) *)
@@ -31,7 +32,7 @@ Definition mk_env (env : list (list nat * list bool)) : list marr :=
 
 Definition norm_ok (exact : bool) (obs : bool) (v : list Q) : bool :=
   let n2 := sumsq v in
-  if exact then Bool.eqb obs (Qltb (norm_atol_f64 * norm_atol_f64) n2)
+  if exact then Bool.eqb obs (norm_valid_at norm_atol_f64 v)
   else
     let hi := (norm_atol * (1 + band))%Q in
     let lo := (norm_atol * (1 - band))%Q in
